@@ -30,7 +30,7 @@ git -C "$WT" apply "$D/patch.diff" || { echo "PATCH-DOES-NOT-APPLY"; exit 2; }
 echo "demo on patched tree:   $(demo)   (want FAIL)"
 cd /verif
 for ID in "$@"; do
-  OUT=$(VERIF_C12_SECONDS=${VERIF_C12_SECONDS:-45} VERIF_REPO="$WT" timeout 3600 ./bin/verif check "$ID" 2>/dev/null | grep -v conda); rc=$?
-  echo "check $ID exit=$(echo "$OUT" | grep -c '^VIOLATION' | sed 's/^0$/0 violations/;t;s/$/ VIOLATION line(s)/')"
+  OUT=$(VERIF_C12_SECONDS=${VERIF_C12_SECONDS:-45} VERIF_REPO="$WT" timeout 3600 ./bin/verif check "$ID" 2>/dev/null); rc=$?
+  echo "check $ID exit=$rc ($(echo "$OUT" | grep -c '^VIOLATION') VIOLATION line(s))"
   echo "$OUT" | grep -E "^VIOLATION|^  class=|TROUBLE|BUILD|INCONCL" | cut -c1-220 | head -6
 done
